@@ -150,7 +150,15 @@ def raster_strategy(draw, tier):
     xyz = [[draw(co), draw(co), draw(co)] for _ in range(n)]
     r = [draw(st.integers(5, 48)) / 16.0 for _ in range(n)]
     res = draw(st.sampled_from([0.5, 1, 1, 2, [1, 2, 0.5], [0.5, 1, 2], [2, 1, 1]]))
-    return {"parents": parents, "xyz": xyz, "r": r, "res": res, "save": draw(st.integers(0, 3)) == 0}
+    save = draw(st.integers(0, 3)) == 0
+    if draw(st.integers(0, 5)) == 0:
+        # a planar tracing (all nodes in one z plane, thin): stacks of one or two slices, or of none at all
+        z = draw(co)
+        xyz = [[p[0], p[1], z] for p in xyz]
+        r = [draw(st.integers(5, 14)) / 16.0 for _ in range(n)]
+        res = draw(st.sampled_from([2, 2, 1, [1, 1, 2], [0.5, 1, 2]]))
+        save = draw(st.integers(0, 1)) == 0
+    return {"parents": parents, "xyz": xyz, "r": r, "res": res, "save": save}
 
 
 def _margin(P, a, b, ra, rb):
@@ -204,7 +212,23 @@ def run_raster(case, ctx):
             v += res3[k]
         centres.append(np.array(c))
     near_edge = any(len(c) and abs(c[-1] + res3[k] - hi[k]) < 1e-6 for k, c in enumerate(centres))
+    if any(len(c) == 0 for c in centres):
+        # the bounding box is thinner than half a voxel along some axis, so no voxel centre lies inside it: the
+        # statement does not say what the stack of zero samples is; a loud refusal or an empty stack are both accepted
+        ctx.ambiguous("no-voxel-centre-inside-the-bounding-box-along-an-axis")
+        ctx.cls("raster:no-sample-along-an-axis")
+        try:
+            stack = ToImageStack(res)(tree)
+        except (KeyboardInterrupt, SystemExit):
+            raise
+        except BaseException:  # noqa - loud refusal (the sampler's PanicException derives from BaseException)
+            return
+        ctx.check(stack.size == 0, "raster/empty-grid-yields-empty-stack",
+                  lambda: f"shape {tuple(stack.shape)} although no voxel centre lies inside {lo.tolist()}..{hi.tolist()} at {res3.tolist()}")
+        return
     stack = ctx.lib("ToImageStack", lambda: ToImageStack(res)(tree))
+    if stack.shape[0] == 1:
+        ctx.cls("raster:single-slice")
     want_shape = (len(centres[2]), len(centres[0]), len(centres[1]))
     ctx.check(tuple(stack.shape) == want_shape, "raster/shape-is-(Z,X,Y)-one-sample-per-voxel-centre",
               lambda: f"{tuple(stack.shape)} vs {want_shape}; bounding box {lo.tolist()}..{hi.tolist()}, resolution {res3.tolist()}")
@@ -244,5 +268,5 @@ SUBCHECKS = [
         required={"fmt:tiff": 200, "fmt:tif-stack": 100, "fmt:nrrd": 100, "fmt:npy": 100, "size-1-axis": 200, "converted": 400,
                   "channels:3": 150, "channels:1": 150, "channels:None": 150, "path:f->u": 80, "path:u->f": 80}),
     Sub("raster", raster_strategy, run_raster, quick=1500, thorough=12000, shards_quick=4,
-        required={"res:aniso": 60, "taper": 100, "saved": 30, "res:0.5": 15, "res:2": 15}),
+        required={"res:aniso": 60, "taper": 100, "saved": 30, "res:0.5": 15, "res:2": 15, "raster:single-slice": 20}),
 ]
